@@ -27,6 +27,19 @@ CLAIMS = {
               "distance to V* is obtained from the solver-proved residual via the contraction lemma (a textbook fact, not "
               "re-proved by the solver). Floats as reals (a float within 1e-13 of a small rational stands for it)."),
         ref='DESIGN.md section 4 C01'),
+    'C02': dict(
+        text=("TabularPolicy.evaluate_on (discounted and undiscounted branches, incl. Policy.to_tabular) is executed on symbolic "
+              "rewards for every skeleton x policy-row combination of the menu; z3 proves that state values, action values "
+              "(-inf exactly at unavailable actions), discounted occupancies and the initial value equal fresh unknowns pinned "
+              "by independently written Bellman expectation / occupancy equations (absorbing states worth 0). Undiscounted: "
+              "value is -inf exactly when a closed non-absorbing class with negative expected reward (sign decided symbolically, "
+              "forking) is reachable under the policy, and the finite expected total reward otherwise. One NRA variant leaves a "
+              "policy probability symbolic."),
+        note=("1-4 states, 1-2 actions, policy rows from {point masses, 1/2-1/2, 1/4-3/4}, discount in {1/2, 9/10, 1}; transition "
+              "probabilities concrete; matrix inverse of a concrete matrix is exact rational Gauss-Jordan in the facade, of a "
+              "symbolic matrix fresh unknowns with A X = I; action values at absorbing states are not constrained (the statement "
+              "fixes only their state value); floats as reals"),
+        ref='DESIGN.md section 4 C02'),
     'C11': dict(
         text=("For every support size within the bound and every distribution kind, the probability-calculus laws are "
               "proved for ALL probability/weight/score values at once (symbolic reals, zero entries included), by running "
